@@ -202,11 +202,140 @@ def dump_body(b, out=None):
 
 # ------------------------------------------------------------------ crate / body wrappers
 
+# The private helpers of the terminal client are anchors of several rules.  A private function may be renamed freely; what
+# makes it the helper the rules mean is its role - which exchange it runs:
+FEIG_ROLES = {
+    "get_system_info": ("seq", "zvt::feig::sequences::GetSystemInfo"),
+    "set_terminal_id": ("seq", "zvt::sequences::SetTerminalId"),
+    "initialize": ("seq", "zvt::sequences::Initialization"),
+    "get_pending": ("seq", "zvt::sequences::PartialReversal"),
+    "end_of_day": ("seq", "zvt::sequences::EndOfDay"),
+    "cancel_transaction_by_receipt_no": ("seq", "zvt::sequences::PreAuthReversal"),
+    "cancel_pending": ("clear", None),
+}
+
+
+def canonical_private_names(data):
+    """{actual name: canonical name} for private async methods of Feig that play the role of a pinned helper under
+    another name (only when the pinned name is absent and exactly one private method has the role)."""
+    pre = "zvt_feig_terminal::feig::Feig::"
+    outer = {b["id"][len(pre):]: b for b in data["bodies"] if b["id"].startswith(pre) and "::" not in b["id"][len(pre):]}
+    have = {}
+    for b in data["bodies"]:
+        if not (b["id"].startswith(pre) and b["id"].endswith("::{closure#0}") and b["id"].count("::{closure") == 1):
+            continue
+        name = b["id"][len(pre):-len("::{closure#0}")]
+        ob = outer.get(name)
+        if ob is None or ob.get("vis", "Public") == "Public":
+            continue
+        for blk in b["blocks"]:
+            t = blk["term"]
+            if t["t"] != "call":
+                continue
+            n = (t.get("f") or {}).get("n", "")
+            if "ResetSequence::into_stream" in n and (t["f"].get("a") or []):
+                have.setdefault(("seq", ty_str(t["f"]["a"][0])), set()).add(name)
+            if n.endswith("HashMap::<K, V, S, A>::clear"):
+                have.setdefault(("clear", None), set()).add(name)
+    ren = {}
+    for canon, role in FEIG_ROLES.items():
+        if canon in outer:
+            continue
+        cands = have.get(role, set()) - set(FEIG_ROLES)
+        if len(cands) == 1:
+            ren[next(iter(cands))] = canon
+    return ren
+
+
+FEIG_FIELD_ROLES = {
+    "zvt_feig_terminal::feig::Feig": {
+        "transactions": lambda t: t.startswith("std::collections::hash::map::HashMap<alloc::string::String, usize"),
+        "socket": lambda t: t == "zvt_feig_terminal::stream::TcpStream",
+        "transactions_max_num": lambda t: t == "usize",
+    },
+    "zvt_feig_terminal::stream::TcpStream": {
+        "inner": lambda t: t.startswith("core::option::Option<zvt::io::PacketTransport<"),
+        "config": lambda t: t == "zvt_feig_terminal::config::Config",
+    },
+}
+
+
+def canonical_private_fields(data):
+    """{actual field name: canonical name} for the private fields of the client structs, recognised by their type (only
+    when the pinned name is absent, the field is private, exactly one field has the type, and the new name is not used
+    by any other local / field of the crate's facts)."""
+    ren = {}
+    for a in data.get("adts", []):
+        roles = FEIG_FIELD_ROLES.get(a["n"])
+        if not roles or not a.get("variants"):
+            continue
+        flds = a["variants"][0]["fields"]
+        names = {f["name"] for f in flds}
+        for canon, pred in roles.items():
+            if canon in names:
+                continue
+            cands = [f["name"] for f in flds if f.get("vis") != "Public" and pred(ty_str(f.get("ty")) or "")]
+            if len(cands) == 1 and cands[0] not in ren:
+                ren[cands[0]] = canon
+    if ren:
+        text = json.dumps(data)
+        for actual in list(ren):
+            # the name must denote that field only (not also a local variable or another struct's field)
+            n_field = text.count('"n": %s' % json.dumps(actual))
+            n_local = text.count('"name": %s' % json.dumps(actual))
+            if n_local > 1:          # (1 = the field's own declaration in the adt table)
+                del ren[actual]
+    return ren
+
+
+def _rename_paths(text, ren):
+    import re as _re
+    for actual, canon in ren.items():
+        text = _re.sub(r"(zvt_feig_terminal::feig::Feig::)%s(?![A-Za-z0-9_])" % _re.escape(actual), r"\g<1>" + canon, text)
+        text = _re.sub(r"(zvt_feig_terminal::feig::<impl zvt_feig_terminal::feig::Feig>::)%s(?![A-Za-z0-9_])" % _re.escape(actual),
+                       r"\g<1>" + canon, text)
+    return text
+
+
 class Crate:
     def __init__(self, data, lower=False):
         self.data = data
         self.name = data["crate"]
         self.bodies = {}
+        if data.get("crate") == "zvt_feig_terminal" and not data.get("_roles"):
+            data["_roles"] = canonical_private_names(data)
+            fields = canonical_private_fields(data)
+            if data["_roles"] or fields:
+                text = _rename_paths(json.dumps(data), data["_roles"])
+                for actual, canon in fields.items():
+                    text = text.replace('"n": %s' % json.dumps(actual), '"n": %s' % json.dumps(canon)) \
+                               .replace('"name": %s' % json.dumps(actual), '"name": %s' % json.dumps(canon))
+                data["_roles"] = dict(data["_roles"], **{"." + k_: "." + v_ for k_, v_ in fields.items()})
+                fresh = json.loads(text)
+                roles = data["_roles"]
+                data.clear()
+                data.update(fresh)
+                data["_roles"] = roles
+        if data.get("crate") == "zvt" and not data.get("_roles"):
+            # `convert_dir` (the directory scan of the firmware upload) is a private function: known by what it returns
+            cd = "zvt::feig::sequences::convert_dir"
+            roles = {}
+            if not any(b_["id"] == cd for b_ in data["bodies"]):
+                cands = [b_["id"] for b_ in data["bodies"] if b_["id"].startswith("zvt::feig::sequences::") and
+                         b_.get("defkind") == "Fn" and "::" not in b_["id"][len("zvt::feig::sequences::"):] and
+                         ty_str((b_.get("locals") or [{}])[0].get("ty")).startswith("core::result::Result<std::collections::hash::map::HashMap<u8, alloc::string::String")]
+                if len(cands) == 1:
+                    roles[cands[0]] = cd
+            data["_roles"] = roles or {"-": "-"}
+            if roles:
+                import re as _re
+                text = json.dumps(data)
+                for actual, canon in roles.items():
+                    text = _re.sub(_re.escape(actual) + r"(?![A-Za-z0-9_])", canon, text)
+                fresh = json.loads(text)
+                data.clear()
+                data.update(fresh)
+                data["_roles"] = roles
         if os.environ.get("ZVT_SCRAMBLE") and not data.get("_scrambled"):
             # self-test aid: every user-chosen local / parameter / captured-variable name is changed (what a renaming
             # refactoring does).  No verdict may depend on such a name; `self` cannot be renamed in Rust and stays.
